@@ -27,8 +27,14 @@ def main():
     try:
         mod = importlib.import_module('checks.' + pid.lower())
         mod.run_check(run, tier)
-    except Exception:
-        run.engine_error('check crashed: ' + traceback.format_exc()[-1500:].replace('\n', ' | '))
+    except Exception as ex:
+        from pyvc.values import Unsupported
+        if isinstance(ex, Unsupported):
+            # a construct outside the verifier's subset: undecided, never a violation and not an engine failure
+            run.add('%s/supported' % pid, 'unsupported', '', 0, None, str(ex))
+            run.undecide('%s/supported' % pid, 'construct outside the verified subset: %s' % ex)
+        else:
+            run.engine_error('check crashed: ' + traceback.format_exc()[-1500:].replace('\n', ' | '))
     code = run.finish()
     sys.exit(code)
 
